@@ -43,6 +43,20 @@ TIMEOUT = {"quick": 900, "thorough": 7200}
 FAULTS = ["urlerror", "timeout", "http503", "short", "midbody"]
 FAULT_EXC = {"urlerror": "URLError", "timeout": "TimeoutError", "http503": "HTTPError", "short": "ContentTooShortError",
              "midbody": "TimeoutError"}
+# transient answers of a loaded or rate-limiting file host; every one is an HTTPError, i.e. a URLError
+HTTP_TRANSIENT = [503, 429, 408, 500, 502, 504]
+
+
+def fault_exc(kind):
+    return "HTTPError" if kind.startswith("http") else FAULT_EXC[kind]
+
+
+def http_flavours(nr, seq, fin):
+    """the 'http503' letter of the enumerated alphabet stands for a transient HTTP refusal; which status it is varies
+    with the position and the case (the alphabet, and with it the number of enumerated sequences, stays the same)"""
+    salt = nr + len(seq) + len(fin)
+    return ["http%d" % HTTP_TRANSIENT[(salt + 2 * i) % len(HTTP_TRANSIENT)] if k == "http503" else k
+            for i, k in enumerate(seq)]
 FINALS = ["good", "corrupt", "truncated", "garbage", "gzgood"]
 URL = "https://example.invalid/files/%s"
 NSH = 16
@@ -114,7 +128,7 @@ def fault_cases(tier, rng):
                     # quick: every sequence of up to 3 faults, a sample of the longer ones (thorough: all)
                     if tier == "quick" and f >= 4 and rng.random() > (0.12 if f == 4 else 0.02):
                         continue
-                    out.append((nr, list(seq), fin))
+                    out.append((nr, http_flavours(nr, list(seq), fin), fin))
     return out
 
 
@@ -178,7 +192,7 @@ def judge_fault(ctx, nr, seq, fin, r, lst, follow, home=None):
         ctx.violation("temporary_files_survive_the_load", cid, detail)
         return
     if f > nr:      # the loader must give up after n_retries retries and propagate the last error
-        want_exc = FAULT_EXC[seq[nr]]
+        want_exc = fault_exc(seq[nr])
         if r.get("outcome") != "exc" or r.get("exc_type") != want_exc:
             ctx.violation("exhausted_retries_not_propagated", cid, dict(detail, expected_exception=want_exc))
             return
